@@ -95,9 +95,16 @@ def _transform_mp_worker(queue, done_event, pio_in, pio_out, make_buf, do_one):
         try:
             pos = queue.get(True, timeout=1)
         except Empty:
-            if done_event.is_set():
+            if not done_event.is_set():
+                continue
+
+            # The done flag is only raised after every item has been flushed
+            # into the queue, but an item may have arrived between our timeout
+            # and our look at the flag. One more non-blocking look settles it.
+            try:
+                pos = queue.get(False)
+            except Empty:
                 break
-            continue
 
         do_one(buf, pos, pio_in, pio_out)
 
